@@ -116,6 +116,10 @@ fn ulp_diff(a: f32, b: f32) -> f64 {
     if a == b || (a.is_nan() && b.is_nan()) {
         return 0.0;
     }
+    // a result within a few ulps of the overflow threshold may legitimately be f32::MAX in one library and infinite in the other
+    if (a.is_infinite() && b.is_finite() && b.abs() >= 3.40282e38 && a.signum() == b.signum()) || (b.is_infinite() && a.is_finite() && a.abs() >= 3.40282e38 && a.signum() == b.signum()) {
+        return 1.0;
+    }
     ((a as f64) - (b as f64)).abs() / ulp32(b as f64).max(1e-45)
 }
 
@@ -318,6 +322,7 @@ pub fn check(s: &Scenario) -> CheckResult {
                 "device"
             }
             Step::DatumOps { .. } => "datum",
+            Step::Pow { .. } => "pow",
         };
         areas.insert(area);
         for (ci, cfg) in CFGS.iter().enumerate() {
@@ -612,8 +617,15 @@ fn device_step() -> BoxedStrategy<Step> {
 fn datum_step() -> BoxedStrategy<Step> {
     (-1000i64..1000, -1000i64..1000, gen::moderate(), gen::moderate_nonzero()).prop_map(|(t1, t2, a, b)| Step::DatumOps { t1, t2, a, b }).boxed()
 }
+/// the power function's special cases: bases and exponents from a pool of exact values (zeros of both signs, +-1, small
+/// integers, halves, tiny, huge) mixed with arbitrary moderate values
+fn pow_step() -> BoxedStrategy<Step> {
+    let base = prop_oneof![6 => proptest::sample::select(vec![0.0f32, -0.0, 1.0, -1.0, 2.0, -2.0, 0.5, -0.5, 10.0, 1.0e-3, 1.0e-30, 1.0e30, -1.0e30, f32::MIN_POSITIVE, 1.0e-40, 3.0e38]), 3 => gen::moderate(), 1 => gen::finite_f32()];
+    let expo = prop_oneof![6 => proptest::sample::select(vec![0.0f32, -0.0, 1.0, -1.0, 2.0, -2.0, 3.0, -3.0, 0.5, -0.5, 0.25, 1.0 / 3.0, 100.0, -100.0, 1.0e10, -1.0e10, 1.0e-10, 3.0e38, -3.0e38]), 3 => gen::moderate(), 1 => gen::finite_f32()];
+    proptest::collection::vec((base, expo).prop_map(|(b, e)| [b, e]), 1..6).prop_map(|pairs| Step::Pow { pairs }).boxed()
+}
 fn step() -> BoxedStrategy<Step> {
-    prop_oneof![3 => quantity_step(), 2 => state_step(), 2 => profile_step(), 4 => stream_step(), 2 => net_step(), 3 => device_step(), 1 => datum_step()].boxed()
+    prop_oneof![3 => quantity_step(), 2 => state_step(), 2 => profile_step(), 4 => stream_step(), 2 => net_step(), 3 => device_step(), 1 => datum_step(), 1 => pow_step()].boxed()
 }
 
 pub struct C19;
